@@ -86,7 +86,7 @@ class World(EventDispatcher):
 
             # Manage replaced components
             if component_type in self._entities.get(entity_id, {}):
-                self.remove_component(entity_id, component_type)
+                self._remove_replaced_component(entity_id, component_type)
 
             if component_type not in self._components:
                 self._components[component_type] = set()
@@ -135,7 +135,7 @@ class World(EventDispatcher):
 
         # Manage replaced components
         if component_type in self._entities.get(entity, {}):
-            self.remove_component(entity, component_type)
+            self._remove_replaced_component(entity, component_type)
 
         if component_type not in self._components:
             self._components[component_type] = set()
@@ -165,6 +165,18 @@ class World(EventDispatcher):
                     and not self._dispatch_enabled):
                 self.dispatch(ON_SINGLE_DISPATCH_EVENT_NAME, ON_ADD_EVENT_NAME,
                               component, entity, self)
+
+    def _remove_replaced_component(self, entity: Hashable,
+                                   component_type: type[C]):
+        """Remove a component that is about to be replaced.
+
+        An entity awaiting deletion keeps awaiting it, even if the
+        replaced component was its last one.
+        """
+        dead = entity in self._dead_entities
+        self.remove_component(entity, component_type)
+        if dead:
+            self._dead_entities.add(entity)
 
     def _on_single_dispatch(self, event, handler, *args):
         """Dispatch the given event to a single handler.
@@ -294,10 +306,10 @@ class World(EventDispatcher):
 
     def _clear_dead_entities(self):
         """Finalize deletion of any entities marked as dead."""
-        for entity in self._dead_entities:
-            self._delete_entity_immediate(entity)
-
-        self._dead_entities.clear()
+        # Marks are consumed one at a time, so that a failure on one
+        # entity cannot leave its mark behind for all the next frames
+        while self._dead_entities:
+            self._delete_entity_immediate(self._dead_entities.pop())
 
     def _delete_entity_immediate(self, entity: Hashable):
         """Remove an entity and its components, notifying them.
@@ -328,6 +340,7 @@ class World(EventDispatcher):
                 self.remove_handler(component)
 
         del self._entities[entity]
+        self._dead_entities.discard(entity)
 
     def remove_component(self, entity: Hashable, component_type: type[C]):
         """Remove a component from an entity, if the entity owns one.
@@ -359,6 +372,7 @@ class World(EventDispatcher):
                 # Free dict entry for an entity if empty
                 if not self._entities[entity]:
                     del self._entities[entity]
+                    self._dead_entities.discard(entity)
 
                 if removed is not None:
                     # No need to check if it is an handler, just check
